@@ -9,7 +9,10 @@ import (
 	"io"
 	"log"
 	"math/rand"
+	"net"
 	"net/netip"
+	"os"
+	"syscall"
 	"testing"
 	"time"
 
@@ -220,6 +223,11 @@ func TestVerifC05(t *testing.T) {
 			linkAt = 4*hi + time.Duration(rr.Int63n(int64(hi)))
 			r.Count("loops_with_link_flap", 1)
 		}
+		var faultAt time.Duration
+		if k%5 == 4 {
+			faultAt = 3*hi + time.Duration(rr.Int63n(int64(hi)))
+			r.Count("loops_with_refused_transmission", 1)
+		}
 		var ev []vfake.Event
 		returned := false
 		var stopT time.Duration
@@ -235,6 +243,23 @@ func TestVerifC05(t *testing.T) {
 					}
 					for x := 0; x < 40; x++ {
 						h.rs(netip.MustParseAddr(fmt.Sprintf("fe80::b:%x:%x", j, x+1)), x%2 == 0)
+					}
+				}
+			}
+			if faultAt > 0 {
+				// a scheduled RA is refused by the socket (transmit queue full): the
+				// interface is re-initialised and must go on requesting unsolicited RAs
+				h.connSetup = func(cn *vfake.Conn) {
+					if cn.Gen != 1 {
+						return
+					}
+					done := false
+					cn.WriteErr = func(_ int, dst netip.Addr) error {
+						if !done && dst.IsMulticast() && h.tr.Now() >= faultAt {
+							done = true
+							return &net.OpError{Op: "write", Net: "ip6:ipv6-icmp", Err: os.NewSyscallError("sendmsg", syscall.ENOBUFS)}
+						}
+						return nil
 					}
 				}
 			}
@@ -277,6 +302,11 @@ func TestVerifC05(t *testing.T) {
 				lastGen = e.Gen
 				ts = append(ts, e.T)
 			}
+		}
+		if faultAt > 0 && ts1 == nil {
+			r.Violation(id, "stopped-requesting", fmt.Sprintf("after a scheduled RA was refused by the socket (first multicast write from %v on) the interface was never advertised on again although it was not stopped", faultAt),
+				map[string]any{"min": lo.String(), "max": hi.String(), "multicast_times": fmt.Sprint(ts)})
+			continue
 		}
 		if linkAt > 0 && ts1 == nil {
 			r.Violation(id, "stopped-requesting", fmt.Sprintf("after the link flap at %v the interface was never advertised on again although it was not stopped", linkAt),
